@@ -308,8 +308,9 @@ def judge(family, case, rec):
         # history: the caller rescales the distribution he was given (his own object), asks the same model something else,
         # then repeats the first question - the answer must not have changed
         try:
-            dist.mean[...] = 1e6
-            dist.covariance[...] = -7.0
+            for arr_, v_ in ((dist.mean, 1e6), (dist.covariance, -7.0)):
+                if isinstance(arr_, np.ndarray) and arr_.flags.writeable:       # read-only results are the caller's too, just not writable
+                    arr_[...] = v_
             model.sample(population=True)
             model.sample(population=True, do_interventions={0: (1.0, 2.0)})
             dist = ask(**kw)
